@@ -61,7 +61,8 @@ Fixpoint cdom (v : jval) : bool :=
   | JObj ms => forallb (fun m => forallb char_ok (fst m) && cdom (snd m)) ms
   end.
 
-(* ---------------------------------------------------------------- _jbl_as_json on a binn value *)
+(* ---------------------------------------------------------------- _jbl_as_json on a binn value
+   (indentation `lvl * indent + indent` like the tree printer since d42c39c; before, one space per level) *)
 Inductive berr := BE_INVALID | BE_ASSERT | BE_UNMODELLED | BE_FUEL | BE_TEXT (e : perr).
 Inductive bres (A : Type) := BOk (a : A) | BErr (e : berr).
 Arguments BOk {A}. Arguments BErr {A}.
@@ -102,7 +103,7 @@ Section PrintBinn.
       let pretty := has pf JBL_PRINT_PRETTY in
       let cnt := bcount b in                                   (* bn->count *)
       let nl := if negb (cnt =? 0) && pretty then [10] else [] in
-      let ind := if negb (cnt =? 0) && pretty then rep 32 lvl else [] in
+      let ind := if negb (cnt =? 0) && pretty then rep 32 (lvl * indent pf) else [] in
       if bt b =? jbinn_BINN_LIST then
         match iter_init (bptr b) jbinn_BINN_LIST with
         | None => BErr BE_INVALID
@@ -117,7 +118,7 @@ Section PrintBinn.
                        match go r (i + 1) with
                        | BErr e => BErr e
                        | BOk rest =>
-                         BOk ((if pretty then rep 32 (lvl + 1) else []) ++ a
+                         BOk ((if pretty then rep 32 (lvl * indent pf + indent pf) else []) ++ a
                               ++ (if i <? cnt - 1 then [44] else []) ++ (if pretty then [10] else []) ++ rest)
                        end
                      end
@@ -144,7 +145,7 @@ Section PrintBinn.
                          match go r (i + 1) with
                          | BErr e => BErr e
                          | BOk rest =>
-                           BOk ((if pretty then rep 32 (lvl + 1) else []) ++ kt
+                           BOk ((if pretty then rep 32 (lvl * indent pf + indent pf) else []) ++ kt
                                 ++ (if pretty then [58; 32] else [58]) ++ a
                                 ++ (if i <? cnt - 1 then [44] else []) ++ (if pretty then [10] else []) ++ rest)
                          end
